@@ -1,11 +1,13 @@
 #!/bin/bash
-# runs every registered check (quick by default) and prints a one-line summary each
-TIER=${1:-quick}
+# runs every registered check (quick by default) and prints a one-line summary each; full output in out/run-<tier>/<id>.log
+TIER=${1:-quick}; shift
 cd /verif
-for p in $(python3 -c "import json;print(' '.join(c['property_id'] for c in json.load(open('MANIFEST.json'))['checks']))"); do
+mkdir -p out/run-$TIER
+PROPS=${*:-$(python3 -c "import json;print(' '.join(c['property_id'] for c in json.load(open('MANIFEST.json'))['checks']))")}
+for p in $PROPS; do
   s=$(date +%s)
-  out=$(timeout 3000 ./bin/vcheck run $p --tier $TIER 2>&1); rc=$?
+  timeout 7200 ./bin/vcheck run $p --tier $TIER > out/run-$TIER/$p.log 2>&1; rc=$?
   e=$(date +%s)
-  echo "$p exit=$rc wall=$((e-s))s $(echo "$out" | grep -cE '^VIOLATION') violations $(echo "$out" | grep -c INCONCLUSIVE) inconclusive"
-  [ $rc -ne 0 ] && echo "$out" | grep -E "VIOLATION|INCONCLUSIVE" | cut -c1-250 | head -5
+  echo "$p exit=$rc wall=$((e-s))s $(grep -cE '^VIOLATION' out/run-$TIER/$p.log) violations $(grep -c INCONCLUSIVE out/run-$TIER/$p.log) inconclusive"
+  [ $rc -ne 0 ] && grep -E "VIOLATION|INCONCLUSIVE" out/run-$TIER/$p.log | cut -c1-250 | head -5
 done
